@@ -131,7 +131,7 @@ def r2_keywords(ctx):
         key = TXIMPL + m
         f = prog.fns.get(key)
         if f is None:
-            ctx.lost(rid, key)
+            ctx.lost(rid, key, missing=True)
             continue
         ex = Exprs(f)
         lits = []
